@@ -381,6 +381,8 @@ def run_one(ctl: explorer.Ctl, cfg: Dict[str, Any]) -> Dict[str, Any]:
         elif missing and not extra:
             cls = "lost-message"
             det = {"cut": where_cut()}
+            if any(n.split("/")[0].endswith("-null") for n in names) and all('null' in m or '"END"' in m for m in missing):
+                det["line"] = "message-with-a-null-valued-member"
         elif not missing and not extra:
             cls = "reordered-or-duplicated"
             det = {}
